@@ -13,7 +13,7 @@
 (* released by a cancellation, < = availability order:                     *)
 (*   FIFO kinds   R if R # {} else {min U}                                 *)
 (*   LIFO buffer  {max U}                                                  *)
-(*   filter store {x \in U : filter(t)(x)}                                 *)
+(*   filter store as FIFO, restricted to the items filter(t) accepts       *)
 (* An empty Allowed set at a grant means the retrieval is not backed by an *)
 (* item of its own (C02); a get that returns an item no allowed choice     *)
 (* explains breaks the discipline (C06).                                   *)
@@ -44,7 +44,10 @@ Allowed(Lg, ev, b, rl, g) ==
   LET av == AvailSeq(Lg, ev)
       U  == {x \in Range(av) : x \notin Ran(b)}
       R  == U \cap rl
-  IN CASE Cfg(tid).kind = "filter" -> {x \in U : FltOkAt(Lg, Lg.toks[g].flt, ItemRec(Lg, x))}
+      M  == {x \in U : FltOkAt(Lg, Lg.toks[g].flt, ItemRec(Lg, x))}      \* filter store: what the filter accepts
+  IN CASE Cfg(tid).kind = "filter" ->
+            \* a FIFO store with filters: a released matching item, else the earliest available matching item
+            IF M \cap rl # {} THEN M \cap rl ELSE {x \in M : \A y \in M : PosIn(av, x) <= PosIn(av, y)}
        [] Cfg(tid).kind = "buffer" /\ Cfg(tid).mode = "LIFO" -> {x \in U : \A y \in U : PosIn(av, y) <= PosIn(av, x)}
        [] OTHER -> IF R # {} THEN R ELSE {x \in U : \A y \in U : PosIn(av, x) <= PosIn(av, y)}
 
